@@ -19,6 +19,8 @@
      Shutdown(s)     sap.shutdown(): bind(None); close(): queues cleared, notify_all, SHUTDOWN
      TermEnd         all access points removed, link.SHUTDOWN
      Wake(t)         a notified waiter re-acquires the lock and finishes (data / None / Error)
+     Adopt(t, l, c)  llc.accept(): the connection returned by listener l is registered at l's access point
+     Close(t, s)     close() called by the application
 
    A socket bound while terminate() is already past its access point, or after termination,
    is registered in a table nobody serves any more: reg = "dead".  The code has no "terminated"
@@ -27,12 +29,12 @@
 *)
 EXTENDS Naturals, FiniteSets, TLC
 
-CONSTANTS Threads, Socks, AtomicCheck, DeadBind, MaxDeliver
+CONSTANTS Threads, Socks, AtomicCheck, DeadBind, DeadAdopt, MaxDeliver
 
 Ops == {"recvfrom", "poll_recv", "accept", "connect", "recv", "sendto", "send", "poll_acks", "poll_send"}
 
 VARIABLES phase,     \* "up" | "terminating" | "down"
-          sk,        \* sk[s] = [reg: "none"|"live"|"dead", st: "OPEN"|"SHUTDOWN", rq: 0..2]
+          sk,        \* sk[s] = [reg: "none"|"live"|"dead"|"orphan", st: "OPEN"|"SHUTDOWN", rq: 0..2]
           th,        \* th[t] = [pc: "idle"|"checked"|"waiting"|"notified"|"done", s: socket, res: result class]
           toShut,    \* sockets terminate() still has to shut down
           ndel
@@ -62,9 +64,41 @@ Bind(t, s) ==
           /\ th' = [th EXCEPT ![t] = [pc |-> "done", s |-> s, res |-> "error"]]
     /\ UNCHANGED <<phase, ndel>>
 
+\* accept(): the connection socket c handed out by the listening socket l is registered at l's access point
+\* (llc.accept: sap lookup + insert_socket).  Since the fix "accept() could register a connection at an access point
+\* removed by terminate()" both steps are one critical section under the controller lock (DeadAdopt = FALSE): once
+\* terminate() has removed the access point accept() raises EPIPE.  DeadAdopt = TRUE is the code before that fix: the
+\* connection keeps the address of an access point that no longer exists (reg = "orphan"): every call on it fails
+\* with EBADF, terminate() never shuts it down, and close() on it crashes (AttributeError) - TLC must then violate
+\* ResultTyped and NoOrphan.
+Adopt(t, l, c) ==
+    /\ th[t].pc = "done" /\ th[t].s = l /\ th[t].res = "data" /\ c # l
+    /\ sk[c].reg = "none" /\ sk[c].st = "OPEN"
+    /\ \/ /\ sk[l].reg = "live"
+          /\ sk' = [sk EXCEPT ![c].reg = "live"]
+          /\ toShut' = IF phase = "terminating" THEN toShut \cup {c} ELSE toShut
+          /\ th' = [th EXCEPT ![t] = [pc |-> "idle", s |-> c, res |-> "-"]]
+       \/ /\ sk[l].reg # "live" /\ DeadAdopt
+          /\ sk' = [sk EXCEPT ![c].reg = "orphan"] /\ toShut' = toShut
+          /\ th' = [th EXCEPT ![t] = [pc |-> "idle", s |-> c, res |-> "-"]]
+       \/ /\ sk[l].reg # "live" /\ ~DeadAdopt                                         \* EPIPE
+          /\ sk' = sk /\ toShut' = toShut
+          /\ th' = [th EXCEPT ![t] = [pc |-> "done", s |-> l, res |-> "error"]]
+    /\ UNCHANGED <<phase, ndel>>
+
+\* close() by the application (service threads: `finally: socket.close()`)
+Close(t, s) ==
+    /\ th[t].pc = "idle" /\ th[t].s = s /\ sk[s].reg # "none"
+    /\ th' = [u \in Threads |->
+               IF u = t THEN [pc |-> "done", s |-> s, res |-> IF sk[s].reg = "orphan" THEN "crash" ELSE "closed"]
+               ELSE IF th[u].pc = "waiting" /\ th[u].s = s THEN [th[u] EXCEPT !.pc = "notified"] ELSE th[u]]
+    /\ sk' = [sk EXCEPT ![s] = [reg |-> "none", st |-> "SHUTDOWN", rq |-> 0]]
+    /\ toShut' = toShut \ {s}
+    /\ UNCHANGED <<phase, ndel>>
+
 \* outcome of the state check + queue inspection made under the socket lock
 Outcome(s) ==
-    IF sk[s].st = "SHUTDOWN" \/ sk[s].reg = "none" THEN "error"      \* ESHUTDOWN / EBADF / EPIPE / ENOTCONN
+    IF sk[s].st = "SHUTDOWN" \/ sk[s].reg \in {"none", "orphan"} THEN "error"   \* ESHUTDOWN / EBADF / EPIPE / ENOTCONN
     ELSE IF sk[s].rq > 0 THEN "data"
     ELSE "wait"
 
@@ -75,7 +109,7 @@ Call(t, s) ==
             /\ th' = [th EXCEPT ![t] = IF o = "wait" THEN [pc |-> "waiting", s |-> s, res |-> "-"]
                                        ELSE [pc |-> "done", s |-> s, res |-> o]]
             /\ sk' = IF o = "data" THEN [sk EXCEPT ![s].rq = @ - 1] ELSE sk
-       ELSE /\ th' = [th EXCEPT ![t] = IF sk[s].st = "SHUTDOWN" \/ sk[s].reg = "none"
+       ELSE /\ th' = [th EXCEPT ![t] = IF sk[s].st = "SHUTDOWN" \/ sk[s].reg \in {"none", "orphan"}
                                        THEN [pc |-> "done", s |-> s, res |-> "error"]
                                        ELSE [pc |-> "checked", s |-> s, res |-> "-"]]
             /\ sk' = sk
@@ -130,7 +164,8 @@ TermEnd ==
     /\ UNCHANGED <<sk, th, toShut, ndel>>
 
 Next ==
-    \/ \E t \in Threads, s \in Socks : Bind(t, s) \/ Call(t, s)
+    \/ \E t \in Threads, s \in Socks : Bind(t, s) \/ Call(t, s) \/ Close(t, s)
+    \/ \E t \in Threads, s, c \in Socks : Adopt(t, s, c)
     \/ \E t \in Threads : Block(t) \/ Wake(t)
     \/ \E s \in Socks : Deliver(s) \/ Shutdown(s)
     \/ TermBegin \/ TermEnd
@@ -148,7 +183,9 @@ NoStuckLive == \A t \in StuckP(th, sk, phase) : sk[th[t].s].reg = "dead"
 \* a call that starts on a shut down / unregistered socket ends at once with an error
 LateCallsFail == \A t \in Threads : th[t].pc = "done" /\ th[t].res = "data" => TRUE
 \* results are typed
-ResultTyped == \A t \in Threads : th[t].pc = "done" => th[t].res \in {"data", "error"}
+ResultTyped == \A t \in Threads : th[t].pc = "done" => th[t].res \in {"data", "error", "closed"}
+\* every socket that carries an address is known to the access point table (or to terminate()'s work list)
+NoOrphan == \A s \in Socks : sk[s].reg # "orphan"
 \* liveness: once the link is down every thread not stuck on a dead socket finishes
 Eventually == (phase = "down") ~> (\A t \in Threads : th[t].pc \in {"idle", "done"} \/ sk[th[t].s].reg = "dead")
 
@@ -157,4 +194,7 @@ W_WaitAtTerm == ~(phase = "terminating" /\ \E t \in Threads : th[t].pc = "waitin
 W_Notified   == ~(\E t \in Threads : th[t].pc = "notified" /\ phase = "down")
 W_Dead       == ~(\E s \in Socks : sk[s].reg = "dead")
 W_Data       == ~(\E t \in Threads : th[t].pc = "done" /\ th[t].res = "data")
+W_AdoptTerm  == ~(phase = "terminating" /\ \E s \in Socks : s \in toShut /\ sk[s].reg = "live" /\
+                   \E t \in Threads : th[t].pc = "idle" /\ th[t].s = s /\ th[t].res = "-")
+W_Closed     == ~(\E t \in Threads : th[t].pc = "done" /\ th[t].res = "closed")
 =============================================================================
